@@ -539,7 +539,7 @@ def gen_store_case(rng, prop, tier):
         ops = [{"op": "unphase"} for _ in range(n)]
         return {"machine": "store", "world": W.clean_world(w), "ops": ops, "knobs": knobs, "state0": []}
 
-    w = W.gen_core(rng)
+    w = W.gen_core(rng, first_base_variant=0.15)
     W.add_alt_truth(rng, w, "alt", flip_rate=rng.choice([0.2, 0.5, 0.8]))
     depth = rng.choice([2, 3, 5, 8, 12, 20, 30])
     W.gen_library(rng, w, "L0", truth="main", depth=depth)
@@ -839,6 +839,9 @@ class StoreRun:
             self.stats.inc("phase_only_snvs")
         if op.get("distrust"):
             self.stats.inc("phase_distrust_genotypes")
+            # genotypes may legitimately have been changed by this run: "same records as unphasing the original"
+            # (U5) no longer applies to the rest of the history
+            self.baseline_unphased = False
         if had_phase:
             prevtags = {self.tag_of.get((c, s)) for c in tchroms for s in tsamples} - {None}
             self.stats.inc("rephase_same_tag" if prevtags == {tag} else "rephase_other_tag")
